@@ -3,7 +3,12 @@
 #define OPLIST(X)                                                              \
     X(nop) X(create) X(join) X(free) X(yield) X(yieldn) X(fset) X(fwait)       \
     X(lock) X(lock_low) X(lock_high) X(spinlock) X(trylock) X(unlock)         \
-    X(unlock_se) X(unlock_de) X(work)
+    X(unlock_se) X(unlock_de) X(work)                                         \
+    X(awaitvar) X(advance) X(cwait) X(ctimedwait) X(cwait_rej) X(csignal)      \
+    X(cbroadcast) X(csigloop) X(bwait) X(bwait_rej) X(breinit) X(evset)       \
+    X(evwait) X(evwait_rej) X(evtest) X(evreset) X(fuset) X(fuwait)           \
+    X(fuwait_rej) X(futest) X(fureset) X(rdlock) X(wrlock) X(rwunlock)        \
+    X(rdlock_rej) X(wrlock_rej)
 
 enum {
 #define X(n) OP_##n,
@@ -335,10 +340,92 @@ static void op_unlock(actor *a, int m, int variant)
         ADEC(m_inflight[m]);
 }
 
+#include "ops_sync.h"
+
 /* ------------------------------------------------------------------ */
 static void exec_op(actor *a, op_t *o)
 {
+    int a0 = (int)o->a[0], a1 = (int)o->a[1];
     switch (o->code) {
+        case OP_awaitvar:
+            op_awaitvar(a, a0, o->a[1]);
+            break;
+        case OP_advance:
+            if (ds_active())
+                ds_advance((uint64_t)o->a[0] * 1000ull);
+            break;
+        case OP_cwait:
+            op_cwait(a, a0, a1, 0, 0);
+            break;
+        case OP_ctimedwait:
+            op_cwait(a, a0, a1, 1, o->a[2]);
+            break;
+        case OP_cwait_rej:
+            op_cwait_rej(a, a0, a1);
+            break;
+        case OP_csignal:
+            op_csignal(a, a0, a1, 0);
+            break;
+        case OP_cbroadcast:
+            op_csignal(a, a0, a1, 1);
+            break;
+        case OP_csigloop:
+            op_csigloop(a, a0, a1, o->a[2], o->a[3]);
+            break;
+        case OP_bwait:
+            op_bwait(a, a0);
+            break;
+        case OP_bwait_rej:
+            op_bwait_rej(a, a0);
+            break;
+        case OP_breinit:
+            op_breinit(a, a0, a1);
+            break;
+        case OP_evset:
+            op_evset(a, a0, a1);
+            break;
+        case OP_evwait:
+            op_evwait(a, a0);
+            break;
+        case OP_evwait_rej:
+            op_evwait_rej(a, a0);
+            break;
+        case OP_evtest:
+            op_evtest(a, a0);
+            break;
+        case OP_evreset:
+            op_evreset(a, a0);
+            break;
+        case OP_fuset:
+            op_fuset(a, a0, a1);
+            break;
+        case OP_fuwait:
+            op_fuwait(a, a0);
+            break;
+        case OP_fuwait_rej:
+            op_fuwait_rej(a, a0);
+            break;
+        case OP_futest:
+            op_futest(a, a0);
+            break;
+        case OP_fureset:
+            op_fureset(a, a0);
+            break;
+        case OP_rdlock:
+            op_rdlock(a, a0);
+            break;
+        case OP_wrlock:
+            op_wrlock(a, a0);
+            break;
+        case OP_rwunlock:
+            op_rwunlock(a, a0);
+            break;
+        case OP_rdlock_rej:
+            op_rwlock_rej(a, a0, 0);
+            break;
+        case OP_wrlock_rej:
+            op_rwlock_rej(a, a0, 1);
+            break;
         case OP_nop:
             break;
         case OP_create:
@@ -531,6 +618,34 @@ static void run_program(void)
             }
         }
     }
+    g_clock0 = ds_now();
+    for (int i = 0; i < G.ncond; i++) {
+        if (G.cond_kind[i] == 0) {
+            rc = ABT_cond_create(&G.cond[i]);
+            CHECK_RC(rc, "ABT_cond_create");
+        } else {
+            ABT_cond_memory init = ABT_COND_INITIALIZER;
+            G.cond_mem[i] = init;
+            G.cond[i] = ABT_COND_MEMORY_GET_HANDLE(&G.cond_mem[i]);
+        }
+    }
+    for (int i = 0; i < G.nbarrier; i++) {
+        rc = ABT_barrier_create((uint32_t)G.barrier_n[i], &G.barrier[i]);
+        CHECK_RC(rc, "ABT_barrier_create");
+        b_n[i] = G.barrier_n[i];
+    }
+    for (int i = 0; i < G.neventual; i++) {
+        rc = ABT_eventual_create(G.ev_nbytes[i], &G.eventual[i]);
+        CHECK_RC(rc, "ABT_eventual_create");
+    }
+    for (int i = 0; i < G.nfuture; i++) {
+        rc = ABT_future_create((uint32_t)G.fut_n[i], G.fut_cb[i] ? fu_cbs[i] : NULL, &G.future[i]);
+        CHECK_RC(rc, "ABT_future_create");
+    }
+    for (int i = 0; i < G.nrwlock; i++) {
+        rc = ABT_rwlock_create(&G.rwlock[i]);
+        CHECK_RC(rc, "ABT_rwlock_create");
+    }
     for (int i = 1; i < G.nxs; i++)
         if (!G.xs[i].late)
             create_xs(i);
@@ -592,6 +707,35 @@ static void run_program(void)
             rc = ABT_mutex_free(&G.mutex[i]);
             CHECK_RC(rc, "ABT_mutex_free");
         }
+    }
+    for (int i = 0; i < G.ncond; i++) {
+        if (c_credits[i] != 0)
+            viol("cond %d: %d signal credit(s) were never consumed by a waiter", i, c_credits[i]);
+        if (G.cond_kind[i] == 0) {
+            rc = ABT_cond_free(&G.cond[i]);
+            if (rc != ABT_SUCCESS)
+                viol("ABT_cond_free returned %d (waiter list not empty?)", rc);
+        }
+    }
+    for (int i = 0; i < G.nbarrier; i++) {
+        rc = ABT_barrier_free(&G.barrier[i]);
+        CHECK_RC(rc, "ABT_barrier_free");
+    }
+    for (int i = 0; i < G.neventual; i++) {
+        ev_final_check(i);
+        rc = ABT_eventual_free(&G.eventual[i]);
+        CHECK_RC(rc, "ABT_eventual_free");
+    }
+    for (int i = 0; i < G.nfuture; i++) {
+        fu_final_check(i);
+        rc = ABT_future_free(&G.future[i]);
+        CHECK_RC(rc, "ABT_future_free");
+    }
+    for (int i = 0; i < G.nrwlock; i++) {
+        if (rw_readers[i] || rw_writers[i])
+            generr("rwlock %d still held at the end", i);
+        rc = ABT_rwlock_free(&G.rwlock[i]);
+        CHECK_RC(rc, "ABT_rwlock_free");
     }
     for (int i = 0; i < G.npool; i++)
         if (!G.pool[i].attached && G.pool[i].h != ABT_POOL_NULL) {
